@@ -431,3 +431,169 @@ Theorem C02_censusv_every_schedule : forall kind, kind = K_RSB \/ kind = K_RMA -
        (forall a b t, Sem.ch s a b t = [])).
 Proof. exact CensusvSched.censusv_every_schedule. Qed.
 Print Assumptions C02_censusv_every_schedule.
+
+(* ---- THE EPILOGUES (sc_notify_payload_cleanup of nbx / superset, the tails of sc_notify_payload_census and of
+   sc_notify_payloadv_census, the creation of the receive buffer and the place where an arriving message is stored):
+   slices GENERATED from the source (Gen/NotifyC02.v, tools/c2g/groups_C02.py) are EQUAL to the hand model C02/CleanupModel.v,
+   for all values of the free variables in their C ranges.  An edit of the sort call, the record size, a source / destination
+   offset, a length or a loop bound changes a generated definition: the lemma stops checking (or the slice no longer translates). *)
+From ScV Require Import Gen.NotifyC02 C02.CleanupModel.
+From ScV Require C02.CleanupGen C02.CleanupProofs.
+
+(* WHICH array is sorted is a function of (sorted, msg_size) only: whole records iff there is a payload *)
+Theorem C02_gen_cleanup_sort : forall sorted msz rb snd,
+  cleanup_sort sorted msz rb snd =
+  (b2z (cl_sort_records sorted msz), (if cl_sort_records sorted msz then rb else 0),
+   b2z (cl_sort_senders sorted msz), (if cl_sort_senders sorted msz then snd else 0)) /\
+  cleanup_senders_when sorted msz = b2z (cl_sort_records sorted msz).
+Proof. intros; split; [exact (CleanupGen.gen_cleanup_sort sorted msz rb snd)|exact (CleanupGen.gen_cleanup_senders_when sorted msz)]. Qed.
+Print Assumptions C02_gen_cleanup_sort.
+
+(* sc_array_sort hands the array's own element count and ELEMENT SIZE to qsort; sc_int_compare is the three-way comparison *)
+Theorem C02_gen_cleanup_sort_call : forall (cnt esz : Z -> Z) a x y,
+  array_sort_call cnt esz a = (cnt a, esz a) /\ int_compare x y = cmp3 x y.
+Proof. intros; split; [exact (CleanupGen.gen_array_sort_call cnt esz a)|exact (CleanupGen.gen_int_compare x y)]. Qed.
+Print Assumptions C02_gen_cleanup_sort_call.
+
+Theorem C02_gen_cleanup_head : forall (cnt arr esz : Z -> Z) rb snd inp, 0 <= cnt rb < 2 ^ 31 -> 0 <= cnt snd < 2 ^ 31 -> 0 <= esz inp < 2 ^ 31 ->
+  cleanup_head cnt arr rb snd = (cl_num_senders rb (cnt rb) (cnt snd), snd, cl_num_senders rb (cnt rb) (cnt snd), arr snd) /\
+  cleanup_msg_size esz inp = cl_msg_size inp (esz inp).
+Proof. intros cnt arr esz rb snd inp H1 H2 H3; split; [exact (CleanupGen.gen_cleanup_head cnt arr rb snd H1 H2)|exact (CleanupGen.gen_cleanup_msg_size esz inp H3)]. Qed.
+Print Assumptions C02_gen_cleanup_head.
+
+(* senders extraction: for i = 0 .. num_senders - 1: senders[i] := the int at the start of record i *)
+Theorem C02_gen_cleanup_senders : forall (ld arr esz : Z -> Z) rb i n rec isnd, 0 <= i < 2 ^ 31 - 1 -> 0 <= esz rb < 2 ^ 31 ->
+  (cleanup_senders_init = 0 /\ cleanup_senders_cond i n = (i <? n) /\ cleanup_senders_step i = i + 1) /\
+  cleanup_senders_body ld rb i rec isnd = (rb, i, elem_addr isnd 4 i, ld rec) /\
+  array_index_int arr esz rb i = elem_addr (arr rb) (esz rb) i.
+Proof.
+  intros ld arr esz rb i n rec isnd H1 H2; split; [exact (CleanupGen.gen_cleanup_senders_loop i n H1)|].
+  split; [exact (CleanupGen.gen_cleanup_senders_body ld rb i rec isnd)|exact (CleanupGen.gen_array_index_int arr esz rb i H1 H2)].
+Qed.
+Print Assumptions C02_gen_cleanup_senders.
+
+(* the per-sender copy loop: when it runs, its bounds, destination cpayload + msg_size * i, source = the LAST msg_size bytes of
+   record i, length msg_size - the same for every item size *)
+Theorem C02_gen_cleanup_copy : forall (arr esz : Z -> Z) inp outp n rb i rec cpay msz,
+  0 <= n < 2 ^ 31 -> 0 <= i < 2 ^ 31 - 1 -> 0 <= msz <= esz rb -> esz rb < 2 ^ 63 -> 0 <= msz * i < 2 ^ 31 ->
+  cleanup_guard arr inp outp n rb =
+    (if inp =? 0 then (0, 0, 0, 0, 0, 0, 0, outp, 0, 0)
+     else (b2z (outp =? 0), (if outp =? 0 then inp else 0), 1, cl_out inp outp, n,
+           b2z (cl_copy_runs inp outp rb), (if cl_copy_runs inp outp rb then rb else 0),
+           cl_out inp outp, arr (cl_out inp outp), b2z (cl_copy_runs inp outp rb))) /\
+  (cleanup_copy_init = 0 /\ cleanup_copy_cond i n = (i <? n) /\ cleanup_copy_step i = i + 1) /\
+  cleanup_copy_body esz rb i rec cpay msz = (rb, i, cl_copy_dst cpay msz i, cl_copy_src rec (esz rb) msz, msz).
+Proof.
+  intros arr esz inp outp n rb i rec cpay msz H1 H2 H3 H4 H5. split; [exact (CleanupGen.gen_cleanup_guard arr inp outp n rb H1)|].
+  split; [exact (CleanupGen.gen_cleanup_copy_loop i n H2)|exact (CleanupGen.gen_cleanup_copy_body esz rb i rec cpay msz H3 H4 H5)].
+Qed.
+Print Assumptions C02_gen_cleanup_copy.
+
+(* nbx and superset: the receive buffer has records of msg_size + sizeof (int) bytes iff the records will be sorted, and an
+   arriving message is stored rank first, item directly behind it (sorted) or in its own element (unsorted) *)
+Theorem C02_gen_cleanup_recv_nbx : forall src sorted msz rb p1 snd p2 p3 tag ret new1 outp new2, 0 <= msz < 2 ^ 31 ->
+  nbx_recv_buf sorted msz new1 outp new2 =
+    (if cl_sort_records sorted msz then (1, rb_elem_size sorted msz, 0, 0, new1)
+     else if msz =? 0 then (0, 0, 0, 0, 0)
+     else if outp =? 0 then (0, 0, 1, rb_elem_size sorted msz, new2) else (0, 0, 0, 0, outp)) /\
+  nbx_recv_slot src sorted msz rb p1 snd p2 p3 tag ret = CleanupGen.slot_model src sorted msz rb p1 snd p2 p3 tag.
+Proof.
+  intros src sorted msz rb p1 snd p2 p3 tag ret new1 outp new2 H. split; [exact (CleanupGen.gen_nbx_recv_buf sorted msz new1 outp new2 H)|].
+  exact (CleanupGen.gen_nbx_recv_slot src sorted msz rb p1 snd p2 p3 tag ret).
+Qed.
+Print Assumptions C02_gen_cleanup_recv_nbx.
+
+Theorem C02_gen_cleanup_recv_superset : forall src sorted msz rb p1 snd p2 p3 tag ret nss newc outp new1, 0 <= msz < 2 ^ 31 -> 0 <= nss < 2 ^ 31 ->
+  super_recv_buf msz sorted nss newc outp new1 =
+    (if msz =? 0 then (0, 0, 0, 0, 0, 0, 0, 0, 0, 0, 0, 0, 0)
+     else if cl_sort_records sorted msz then (1, rb_elem_size sorted msz, nss, 1, newc, 0, 0, 0, 0, 0, 0, 0, newc)
+     else if outp =? 0 then (0, 0, 0, 0, 0, 1, rb_elem_size sorted msz, 1, new1, nss, 1, new1, new1)
+     else (0, 0, 0, 0, 0, 0, 0, 1, outp, nss, 1, outp, outp)) /\
+  super_recv_slot src sorted msz rb p1 snd p2 p3 tag ret = CleanupGen.slot_model src sorted msz rb p1 snd p2 p3 tag.
+Proof.
+  intros src sorted msz rb p1 snd p2 p3 tag ret nss newc outp new1 H H2. split; [exact (CleanupGen.gen_super_recv_buf msz sorted nss newc outp new1 H H2)|].
+  exact (CleanupGen.gen_super_recv_slot src sorted msz rb p1 snd p2 p3 tag ret).
+Qed.
+Print Assumptions C02_gen_cleanup_recv_superset.
+
+(* pcx / rsx: records of stride sizeof (int) + msg_size; message i is received into the item part of record i, its source stored
+   at the start of record i; the epilogue sorts the records (iff sorted) and copies rank and item of record i to position i *)
+Theorem C02_gen_cleanup_census : forall (ld : Z -> Z) msz snd n newc crecv i tag ret src sorted rb isnd cpay,
+  0 <= msz < 2 ^ 31 -> 0 <= n < 2 ^ 31 -> 0 <= i < 2 ^ 31 - 1 ->
+  census_recv_buf msz snd n newc =
+    (if (msz =? 0) && negb (snd =? 0) then (census_stride msz, 1, snd, n, 0, 0, 0, snd)
+     else (census_stride msz, 0, 0, 0, 1, census_stride msz, n, newc)) /\
+  census_recv_body crecv i (census_stride msz) msz tag ret src =
+    (cl_copy_src (elem_addr crecv (census_stride msz) i) (census_stride msz) msz, msz, tag, elem_addr crecv (census_stride msz) i, src) /\
+  census_sort sorted rb = (b2z (negb (sorted =? 0)), if sorted =? 0 then 0 else rb) /\
+  census_copy_body ld isnd i crecv (census_stride msz) cpay msz =
+    (elem_addr isnd 4 i, ld (elem_addr crecv (census_stride msz) i), cl_copy_dst cpay msz i,
+     cl_copy_src (elem_addr crecv (census_stride msz) i) (census_stride msz) msz, msz) /\
+  census_senders_body ld isnd i crecv (census_stride msz) = (elem_addr isnd 4 i, ld (elem_addr crecv (census_stride msz) i)) /\
+  (census_recv_cond i n = (i <? n) /\ census_copy_cond i n = (i <? n) /\ census_senders_cond i n = (i <? n) /\
+   census_recv_step i = i + 1 /\ census_copy_step i = i + 1 /\ census_senders_step i = i + 1 /\
+   census_recv_init = 0 /\ census_copy_init = 0 /\ census_senders_init = 0).
+Proof.
+  intros ld msz snd n newc crecv i tag ret src sorted rb isnd cpay H1 H2 H3.
+  split; [exact (CleanupGen.gen_census_recv_buf msz snd n newc H1 H2)|].
+  split; [exact (CleanupGen.gen_census_recv_body crecv i msz tag ret src H3 H1)|].
+  split; [exact (CleanupGen.gen_census_sort sorted rb)|].
+  split; [exact (CleanupGen.gen_census_copy_body ld isnd i crecv cpay msz H3 H1)|].
+  split; [exact (CleanupGen.gen_census_senders_body ld isnd i crecv msz H3 H1)|].
+  pose proof (CleanupGen.gen_census_loops i n H3); tauto.
+Qed.
+Print Assumptions C02_gen_cleanup_census.
+
+(* payloadv for pcx / rsx, sorted: (rank, first, end) triples sorted by rank; slice of record i copied behind the slices before it *)
+Theorem C02_gen_cleanup_censusv : forall (ld arr : Z -> Z) outp rb inp rsz sorted fs snd outoff i n rec isnd cout msz crecv,
+  0 <= rsz < 2 ^ 31 -> 0 <= i < 2 ^ 31 - 1 -> 0 < msz < 2 ^ 31 ->
+  0 <= ld (rec + 4 * 1) <= ld (rec + 4 * 2) -> ld (rec + 4 * 2) * msz < 2 ^ 63 ->
+  0 <= ld (outoff + 4 * i) -> (ld (outoff + 4 * i) + ld (rec + 4 * 2)) * msz < 2 ^ 63 -> ld (outoff + 4 * i) + ld (rec + 4 * 2) < 2 ^ 31 ->
+  censusv_guard arr outp rb inp rsz sorted fs snd outoff =
+    (if outp =? rb then (0, 0, 0, 0, 0, 0, 0, 0, 0, 0, outp, 0, 0, 0)
+     else if sorted =? 0
+          then (b2z (outp =? 0), (if outp =? 0 then inp else 0), 1, cl_out inp outp, rsz, 1, cl_out inp outp, rb, 0, 0, cl_out inp outp, 0, 0, 0)
+          else (b2z (outp =? 0), (if outp =? 0 then inp else 0), 1, cl_out inp outp, rsz, 0, 0, 0, 1, fs, cl_out inp outp, elem_addr outoff 4 0, 0, 1)) /\
+  (censusv_copy_init = 0 /\ censusv_copy_cond i n = (i <? n) /\ censusv_copy_step i = i + 1) /\
+  censusv_copy_body ld fs i rec isnd cout outoff msz crecv =
+    (fs, i, cv_copy_dst cout (ld (outoff + 4 * i)) msz, cv_copy_src crecv (ld (rec + 4 * 1)) msz,
+     cv_copy_len (ld (rec + 4 * 1)) (ld (rec + 4 * 2)) msz,
+     elem_addr isnd 4 i, ld rec, elem_addr outoff 4 (i + 1), cv_next_off (ld (outoff + 4 * i)) (ld (rec + 4 * 1)) (ld (rec + 4 * 2))).
+Proof.
+  intros ld arr outp rb inp rsz sorted fs snd outoff i n rec isnd cout msz crecv H1 H2 H3 H4 H5 H6 H7 H8.
+  split; [exact (CleanupGen.gen_censusv_guard arr outp rb inp rsz sorted fs snd outoff H1)|].
+  split; [exact (CleanupGen.gen_censusv_copy_loop i n H2)|].
+  exact (CleanupGen.gen_censusv_copy_body ld fs i rec isnd cout outoff msz crecv H2 H3 H4 H5 H6 H7 H8).
+Qed.
+Print Assumptions C02_gen_cleanup_censusv.
+
+(* the model of the epilogue on a byte memory, for EVERY item size msz > 0, record size esz >= msz, number of senders n and memory:
+   (senders[i], item i of the output) = (rank, item part) of record i - nothing is exchanged between senders *)
+Theorem C02_cleanup_delivers_records : forall rank_of m rb esz out msz n,
+  0 < msz <= esz -> rb + esz * Z.of_nat n <= out \/ out + msz * Z.of_nat n <= rb ->
+  combine (cl_out_senders rank_of rb esz n) (cl_out_items (cl_copy m rb esz out msz n) out msz n) = cl_records rank_of m rb esz msz n.
+Proof. exact CleanupProofs.cleanup_delivers_records. Qed.
+Print Assumptions C02_cleanup_delivers_records.
+
+(* sorted mode: after ANY sort that leaves the records a rank-ascending permutation of what was received (qsort with the record
+   size as element size and sc_int_compare), the epilogue returns exactly `sort_by_src got` - the restatement of the epilogue
+   in the per-rank programs nbx_core / super_core / census_core (C01/NotifyProgs.v) that the program theorems are about *)
+Theorem C02_cleanup_sorted_is_sort_by_src : forall rank_of m rb esz out msz n (got : list (Z * payload)),
+  0 < msz <= esz -> rb + esz * Z.of_nat n <= out \/ out + msz * Z.of_nat n <= rb ->
+  NoDup (map fst got) ->
+  ssorted fst (cl_records rank_of m rb esz msz n) -> Permutation (cl_records rank_of m rb esz msz n) got ->
+  combine (cl_out_senders rank_of rb esz n) (cl_out_items (cl_copy m rb esz out msz n) out msz n) = sort_by_src got.
+Proof. exact CleanupProofs.cleanup_sorted_is_sort_by_src. Qed.
+Print Assumptions C02_cleanup_sorted_is_sort_by_src.
+
+(* unsorted mode with an own receive buffer: the items stay in the order of arrival *)
+Theorem C02_cleanup_unsorted_keeps_order : forall m rb out msz n,
+  0 < msz -> rb + msz * Z.of_nat n <= out \/ out + msz * Z.of_nat n <= rb ->
+  cl_out_items (cl_copy m rb msz out msz n) out msz n = map (fun i => mbytes m (elem_addr rb msz (Z.of_nat i)) (Z.to_nat msz)) (seq 0 n).
+Proof. exact CleanupProofs.cleanup_unsorted_keeps_order. Qed.
+Print Assumptions C02_cleanup_unsorted_keeps_order.
+
+Example C02_cleanup_nonvacuous :
+  cl_sort_records 1 64 = true /\ cl_sort_records 1 61 = true /\ cl_sort_records 1 4096 = true /\ rb_elem_size 1 64 = 68 /\
+  cl_copy_src (elem_addr 1000 68 2) 68 64 = 1140 /\ cl_copy_dst 5000 64 2 = 5128.
+Proof. repeat split; reflexivity. Qed.
